@@ -93,7 +93,8 @@ qvset = z3.Function("qvset", Node, NodeSet)  # quantifier: set of bound vars
 pl_alg = z3.Function("pl_alg", Node, I)      # ALGEBRAIC payload: opaque id
 
 # ---- values -----------------------------------------------------------------
-AV = z3.DeclareSort("AV")
+VK = z3.DeclareSort("VK")                    # array index keys: injective image of Val
+AV = z3.DeclareSort("AV")                    # array values; aview/amk link them to z3 arrays
 UV = z3.DeclareSort("UV")                    # elements of custom sorts
 _Val = z3.Datatype("Val")
 _Val.declare("VBool", ("vb", B))
@@ -153,10 +154,27 @@ pow2 = Tracked("pow2", I, I)
 band = Tracked("band", I, I, I)
 bor = Tracked("bor", I, I, I)
 bxor = Tracked("bxor", I, I, I)
-asel = Tracked("asel", AV, Val, Val)
-astore = Tracked("astore", AV, Val, Val, AV)
-acst = Tracked("acst", Val, AV)
-TRACKED = [pow2, band, bor, bxor, asel, astore, acst]
+vkey = Tracked("vkey", Val, VK)              # injective (lemma instances in spec.py)
+
+
+ZArr = z3.ArraySort(VK, Val)
+aview = z3.Function("aview", AV, ZArr)       # bijection AV <-> z3 arrays (extensional)
+amk = Tracked("amk", ZArr, AV)
+
+
+def asel(a, i):
+    return z3.Select(aview(a), vkey(i))
+
+
+def astore(a, i, v):
+    return amk(z3.Store(aview(a), vkey(i), v))
+
+
+def acst(v):
+    return amk(z3.K(VK, v))
+
+
+TRACKED = [pow2, band, bor, bxor, vkey, amk]
 
 
 def reset_tracking():
@@ -176,6 +194,7 @@ semf = z3.Function("semf", Node, Sem)        # the denotation of a node: Interp 
 ev = z3.Function("ev", Sem, Val)             # ... evaluated at the fixed arbitrary interpretation
 dep = z3.Function("dep", Sem, NodeSet)       # symbols the denotation depends on
 qsem = z3.Function("qsem", I, NodeSet, Sem, Sem)   # quantification over a set of symbols
+rpow = z3.Function("rpow", R, I, R)           # base ** integer exponent (0 ** negative: unconstrained)
 # uninterpreted application of an uninterpreted function symbol (node) to values
 uf_app = z3.Function("uf_app", Node, z3.SeqSort(Val), Val)
 # division by zero: unconstrained functions of the dividend (SMT-LIB)
